@@ -31,6 +31,30 @@ Case = (prog ops).
            every effect below it) | (7 e) dispose: the RenderEffect handles of that subtree are dropped, then the
            owner is cleaned up | (8 n) dispose the arena signal / memo n (its later
            reads by bodies give 0 and track nothing; no later set / notify / top-level read of n)
+API variants (fields the model's decoder does not read: the model runs the construct they are equivalent to, so the
+traces are compared as before).  var = rv + 8 * cv:
+  signal (0 flavour init var)     rv: how it is read: 0 get / get_untracked, 1 with / with_untracked, 2 *read() / *read_untracked(),
+                                  3 track() + get_untracked() / try_get_untracked, 4 try_get / try_with_untracked;
+                                  cv: how it is written: 0 set, 1 update, 2 maybe_update(.. true), 3 write() guard, 4 try_set,
+                                  5 try_update, 6 SignalSetter (from(WriteSignal / RwSignal) / map), 7 update_untracked + notify,
+                                  8 set through a MappedSignal / ArcMappedSignal view, 9 write_untracked + notify;
+                                  notify: cv % 3 = 0 notify(), 1 an untouched write() guard dropped, 2 update(|_| {}) / mapped.notify()
+  memo (1 cmp flavour expr var)   rv as above; cv: 0 new / new_with_compare, 1 new_owning (the body returns the changed flag, same
+                                  comparator), 2 built as the other handle type and converted (Memo::from(ArcMemo) / ArcMemo::from(Memo))
+  derived (2 flavour expr var)    rv as above (3 only over a plain node); cv: closures: flavour 0: 1 MaybeSignal::derive, 2 MaybeProp::derive;
+                                  flavour 1 / 2: 1 derive_local; wrappers: flavour 3 / 4 over a constant: 1 From<T>, 2 stored_local;
+                                  flavour 3 over an Arc signal: 2 Signal<_, LocalStorage>::from; flavour 5 over an ArcRwSignal:
+                                  1 MappedSignal::from(ArcMappedSignal); flavour 7 MaybeProp::from (1: straight from ReadSignal / RwSignal /
+                                  Memo, Some(z)), 8 Signal<Option<T>>::from(Signal<T> / T), 9 Signal::from(MaybeSignal)
+  effect (3 kind body handler par var)   var: 1 the Send + Sync sibling (Effect::new_sync, watch_sync, RenderEffect::new_isomorphic,
+                                  ImmediateEffect::new_isomorphic), 2 RenderEffect::new_with_value / ImmediateEffect::new_scoped,
+                                  3 ImmediateEffect::new_mut
+  op (7 e how)                    how 1 Dispose::dispose on the effect's handle (RenderEffect: the handle is dropped), 2 Effect::stop;
+                                  the owner is left alone (only for effects without owners below them)
+  op (9 s how)                    NOT a write (oracle only): 0 maybe_update(|_| false), 1 write() + untrack(), 2 try_maybe_update -> (false, _),
+                                  3 update_untracked(|_| {}), 4 write_untracked() guard dropped
+  op (10 e k)                     the effect declared by template k is created now, under the owner of effect e (oracle only)
+  case (prog ops flags)           flags: 1 every poll hands the task a new waker (older ones are dead), 2 untrack_with_diagnostics
 Events printed by harness and model:
   (0 n v) top-level read | (1 i) body starts | (2 who j v t) read inside body `who` (-1: none)
   | (3 i v) body ends | (5 i)/(6 i v) watch handler | (7) idle | (8 e) task polled | (9) no idle
@@ -230,7 +254,7 @@ def valid_prog(prog):
     for i, nd in enumerate(prog):
         if not isinstance(nd, list) or not nd or nd[0] not in (0, 1, 2, 3, 4, 5):
             return False
-        want = {SIG: (3,), MEMO: (4,), DER: (3,), EFF: (4, 5), SEL: (6,), TPL: (2,)}[nd[0]]
+        want = {SIG: (3, 4), MEMO: (4, 5), DER: (3, 4), EFF: (4, 5, 6), SEL: (6,), TPL: (2,)}[nd[0]]
         if len(nd) not in want:
             return False
         if nd[0] == TPL:
@@ -239,7 +263,9 @@ def valid_prog(prog):
                 return False
             if d[0] == EFF and d[1] not in (2, 3) and d[3] != [0, 0]:
                 return False
-        if nd[0] == EFF and len(nd) == 5:
+        if not valid_var(nd):
+            return False
+        if nd[0] == EFF and len(nd) >= 5:
             q = nd[4]
             if not isinstance(q, int) or q < -1 or q >= i:
                 return False
@@ -293,6 +319,27 @@ def valid_prog(prog):
     return True
 
 
+def var_of(nd):
+    """the API variant field of a node (0 when absent)"""
+    pos = {SIG: 3, MEMO: 4, DER: 3, EFF: 5}.get(nd[0])
+    return nd[pos] if pos is not None and len(nd) > pos else 0
+
+
+def valid_var(nd):
+    pos = {SIG: 3, MEMO: 4, DER: 3, EFF: 5}.get(nd[0])
+    if pos is None or len(nd) <= pos:
+        return True
+    v = nd[pos]
+    if not isinstance(v, int) or v < 0:
+        return False
+    if nd[0] == EFF:
+        return v in {0: (0, 1), 1: (0, 1, 2), 2: (0, 1), 3: (0, 1), 4: (0,), 5: (0, 1, 2, 3)}.get(nd[1], (0,))
+    rv, cv = v % 8, v // 8
+    if rv > 4:
+        return False
+    return cv <= {SIG: 9, MEMO: 2, DER: 2}[nd[0]]
+
+
 def valid_refs(prog, i, e, scope=frozenset()):
     """every node an expression of node i names is declared before i and is of the right kind; `scope`: the memo
     templates whose instance the body can name"""
@@ -319,6 +366,8 @@ def wrappable(prog, j, flavour):
     nd = prog[j]
     if flavour == 5:
         return nd[0] == SIG and nd[1] in (0, 2)
+    if flavour not in (3, 4, 6, 7, 8, 9):
+        return False
     if nd[0] == SIG:
         return nd[1] not in (3, 5, 6)    # the ArcTrigger-backed cell is not a signal type
     if nd[0] == MEMO:
@@ -330,12 +379,15 @@ def wrappable(prog, j, flavour):
 
 def valid_wrapper(prog, i):
     nd = prog[i]
-    if nd[1] not in (3, 4, 5, 6):
+    if nd[1] not in (3, 4, 5, 6, 7, 8, 9):
         return False
     b = nd[2]
     if b[0] == 0:
         return nd[1] != 5
-    return b[0] == 1 and 0 <= b[1] < i and wrappable(prog, b[1], nd[1])
+    if not (b[0] == 1 and 0 <= b[1] < i and wrappable(prog, b[1], nd[1])):
+        return False
+    # a derived signal built by a constructor variant has a representation the conversions do not take
+    return not (prog[b[1]][0] == DER and var_of(prog[b[1]]) // 8 != 0)
 
 
 def valid_expr(e, depth=0):
@@ -376,8 +428,29 @@ def disposable(prog, n):
     return True
 
 
+def handle_disposable(prog, e):
+    """(7 e how): the effect alone is disposed through its handle: nothing lives below it"""
+    nd = prog[e]
+    if nd[0] != EFF or any(parent_of(x) == e for x in prog) or has_create(nd[2]):
+        return False
+    return True
+
+
+def adoptable(prog, k):
+    """(10 e k): template k declares an Effect::new / watch / new_isomorphic that nothing in the program creates and
+    that creates nothing itself (a RenderEffect would run at once, paused or not: its first run is its creation)"""
+    if not (isinstance(k, int) and 0 <= k < len(prog) and prog[k][0] == TPL):
+        return False
+    d = prog[k][1]
+    if d[0] != EFF or d[1] not in (0, 2, 3, 4) or has_create(d[2]) or has_create(d[3]):
+        return False
+    cr = creators(prog)
+    return cr is not None and k not in cr
+
+
 def valid_ops(prog, ops):
     gone = set()
+    dead = set()       # effects whose owner was cleaned up (with its subtree)
     for o in ops:
         if not isinstance(o, list) or not o:
             return False
@@ -404,9 +477,25 @@ def valid_ops(prog, ops):
         elif k == 4:
             if len(o) != 1:
                 return False
-        elif k in (5, 6, 7):
+        elif k in (5, 6):
             if len(o) != 2 or not (0 <= o[1] < len(prog)) or prog[o[1]][0] != EFF:
                 return False
+        elif k == 7:
+            if len(o) not in (2, 3) or not (0 <= o[1] < len(prog)) or prog[o[1]][0] != EFF:
+                return False
+            if len(o) == 3 and o[2] != 0 and not (o[2] in (1, 2) and handle_disposable(prog, o[1])):
+                return False
+            if len(o) == 2 or o[2] == 0:
+                dead |= set(subtree(prog, o[1]))
+        elif k == 9:
+            if (len(o) != 3 or not (0 <= o[1] < len(prog)) or prog[o[1]][0] != SIG or not is_plain(prog[o[1]])
+                    or o[1] in gone or o[2] not in (0, 1, 2, 3, 4)):
+                return False
+        elif k == 10:
+            if len(o) != 3 or not (0 <= o[1] < len(prog)) or prog[o[1]][0] != EFF or prog[o[1]][1] == 5:
+                return False
+            if not adoptable(prog, o[2]) or o[1] in dead:
+                return False       # (an owner that was cleaned up is cut off from its parent)
         else:
             return False
     return True
@@ -432,8 +521,12 @@ def writes_terminate(prog):
 
 def valid_case(item):
     c = item["case"]
-    if not (isinstance(c, list) and len(c) == 2 and isinstance(c[0], list) and isinstance(c[1], list)):
+    if not (isinstance(c, list) and len(c) in (2, 3) and isinstance(c[0], list) and isinstance(c[1], list)):
         return False
+    if len(c) == 3 and c[2] not in (0, 1, 2, 3):
+        return False
+    if item.get("compare") and any(o and o[0] in (9, 10) for o in c[1] if isinstance(o, list)):
+        return False          # the model has no such operation
     if not valid_prog(c[0]) or not valid_ops(c[0], c[1]):
         return False
     if item.get("kind", "").startswith("selfwrite"):
@@ -470,7 +563,7 @@ def gen_expr(rng, readable, depth, p_untr=0.12, sigs=None):
 
 
 def gen_program(rng, n, n_eff=0, p_untr=0.12, p_der=0.15, p_always=0.12, eff_kinds=(0, 0, 1, 2, 3, 4),
-                allow_wr=True, extra_sigs=True, p_wrap=0.45, p_coarse=0.15):
+                allow_wr=True, extra_sigs=True, p_wrap=0.45, p_coarse=0.15, new_wrappers=False):
     """n nodes: signals first (plus a few later ones), memos / derived, n_eff effects spread over the tail"""
     nsig = max(1, min(rng.randint(1, 3), n - n_eff - 1))
     n = max(n, nsig + n_eff)
@@ -511,7 +604,7 @@ def gen_program(rng, n, n_eff=0, p_untr=0.12, p_der=0.15, p_always=0.12, eff_kin
             nd = None
             if rng.random() < p_wrap:
                 # a type-erased wrapper around an earlier node (prefer memos and recent nodes)
-                fl = rng.choice([3, 3, 3, 4, 4, 5, 6])
+                fl = rng.choice([3, 3, 3, 4, 4, 5, 6, 7, 7, 8, 9] if new_wrappers else [3, 3, 3, 4, 4, 5, 6])
                 cands = [j for j in range(i) if kinds[j] != EFF and wrappable(prog, j, fl)]
                 memos = [j for j in cands if kinds[j] == MEMO]
                 if cands and rng.random() < 0.93:
@@ -797,6 +890,105 @@ def gen_dynamic_program(rng, n_creators, eff_kinds=(0, 0, 1, 2, 3, 4), with_effe
     return prog
 
 
+def add_variants(rng, prog, p=0.5):
+    """API variants on the nodes of a generated program (see the module docstring): other entry points of the same
+    mechanism; the model ignores the fields"""
+    for nd in prog:
+        if nd[0] == TPL or rng.random() >= p:
+            continue
+        if nd[0] == SIG and nd[1] in (0, 1, 2, 4) and len(nd) == 3:
+            nd.append(rng.randint(0, 4) + 8 * rng.randint(0, 9))
+        elif nd[0] == MEMO and len(nd) == 4:
+            nd.append(rng.randint(0, 4) + 8 * rng.choice([0, 1, 1, 2]))
+        elif nd[0] == DER and len(nd) == 3:
+            wrapped = any(o[0] == DER and o[1] >= 3 and o[2][0] == 1 and prog[o[2][1]] is nd for o in prog)
+            nd.append(rng.randint(0, 4) + 8 * (0 if wrapped else rng.randint(0, 2)))
+        elif nd[0] == EFF and nd[1] != 4:
+            choices = {0: (1,), 1: (1, 2), 2: (1,), 3: (1,), 5: (1, 2)}[nd[1]]
+            par = nd[4] if len(nd) > 4 else -1
+            nd[4:] = [par, rng.choice(choices)]
+    return prog
+
+
+def with_flags(rng, prog, ops, p=0.3):
+    """the case, in a part of the cases with flags (fresh waker per poll, untrack_with_diagnostics)"""
+    if rng.random() < p:
+        return [prog, ops, rng.choice([1, 1, 2, 3])]
+    return [prog, ops]
+
+
+def vary_disposals(rng, prog, ops, p=0.5):
+    """(7 e) -> (7 e how): the effect is disposed through its handle where nothing lives below it"""
+    out = []
+    for o in ops:
+        if o[0] == 7 and len(o) == 2 and rng.random() < p and handle_disposable(prog, o[1]):
+            o = [7, o[1], rng.choice([1, 2])]
+        out.append(o)
+    return out
+
+
+def add_silent(rng, prog, ops, n=3):
+    """insert operations that are not writes (maybe_update returning false, an untracked write guard ...)"""
+    sigs = [i for i, nd in enumerate(prog) if nd[0] == SIG and is_plain(nd) and nd[1] != 3]
+    if not sigs:
+        return ops
+    ops = list(ops)
+    for _ in range(rng.randint(1, n)):
+        pos = rng.randint(0, len(ops))
+        s_ = rng.choice(sigs)
+        if any(o[0] == 8 and o[1] == s_ for o in ops[:pos]):
+            continue
+        ops.insert(pos, [9, s_, rng.randint(0, 4)])
+    return ops
+
+
+def gen_adopt_case(rng):
+    """effects created in the middle of the history under the owner of an existing effect, which may be paused at
+    that moment: (10 e k)"""
+    ne = rng.choice([1, 2, 2, 3])
+    prog = gen_program(rng, rng.randint(ne + 2, ne + 5), ne, p_untr=0.05, allow_wr=False, eff_kinds=(0, 0, 1, 2, 3, 4))
+    if ne > 1 and rng.random() < 0.5:
+        add_owner_tree(rng, prog, p_child=0.7)
+    readable = [j for j, nd in enumerate(prog) if is_plain(nd)]
+    sigs = [j for j, nd in enumerate(prog) if nd[0] == SIG and is_plain(nd)]
+    effs = [j for j, nd in enumerate(prog) if nd[0] == EFF]
+    tpls = []
+    for _ in range(rng.randint(1, 2)):
+        kind = rng.choice([0, 0, 2, 3, 4])
+        body = gen_expr(rng, readable, rng.choice([0, 1, 2]), 0.05, sigs)
+        h = gen_expr(rng, readable, rng.choice([0, 1]), 0.0, sigs) if kind in (2, 3) else [0, 0]
+        prog.append([5, [3, kind, body, h]])
+        tpls.append(len(prog) - 1)
+    ops = [[4]] if rng.random() < 0.7 else []
+    for _ in range(rng.randint(4, 14)):
+        r = rng.random()
+        if r < 0.22:
+            ops.append([rng.choice([5, 5, 6]), rng.choice(effs)])
+        elif r < 0.42:
+            ops.append([10, rng.choice(effs), rng.choice(tpls)])
+        elif r < 0.72:
+            ops.append([0, rng.choice(sigs), rng.randint(0, 3)])
+        elif r < 0.77:
+            ops.append([7, rng.choice(effs)])
+        else:
+            ops.append([4] if rng.random() < 0.7 else [3, rng.randint(0, 3)])
+    if rng.random() < 0.6:
+        for e in effs:
+            if parent_of(prog[e]) is None:
+                ops.append([6, e])
+        for s_ in sigs:
+            ops.append([0, s_, rng.randint(4, 6)])
+    ops.append([4])
+    dead, keep = set(), []
+    for o in ops:
+        if o[0] == 7:
+            dead |= set(subtree(prog, o[1]))
+        if o[0] == 10 and o[1] in dead:
+            continue
+        keep.append(o)
+    return [prog, keep]
+
+
 def interleave(main, extras, every):
     """yield the items of `main`, one of `extras` after every `every` of them (expensive cases spread over the
     shards the driver cuts the stream into), the rest at the end"""
@@ -817,7 +1009,7 @@ def add_owner_tree(rng, prog, p_child=0.6):
         if n and rng.random() < p_child:
             # prefer the previous effect, so that chains of depth 3 and more form
             q = effs[n - 1] if rng.random() < 0.6 else rng.choice(effs[:n])
-            prog[e] = prog[e][:4] + [q]
+            prog[e] = prog[e][:4] + [q] + prog[e][5:]
     return prog
 
 
@@ -928,6 +1120,8 @@ class Walker:
         self.cap = {}          # instance -> {template: instance} it sees (captured when it was created)
         self.tpl_of = {}       # instance -> its template
         self.kids = {}         # node / instance -> instances its last run created
+        self.okids = {}        # static effect -> instances created under its owner by an operation (10 e k)
+        self.born_paused = set()   # ... those created while that owner was paused and not resumed since
         self.envs = []         # environments of the running bodies (innermost last)
         self.pos = 0
         self.sig = {i: nd[2] for i, nd in enumerate(prog) if nd[0] == SIG}
@@ -1018,8 +1212,25 @@ class Walker:
         elif nd[0] == MEMO and nd[2] == 1:
             self.gone.add(c)          # an arena Memo; an ArcMemo lives as long as its handle
             self.epoch += 1
-        for d in self.kids.get(c, []):
+        for d in self.kids.get(c, []) + self.okids.get(c, []):
             self.kill(d)
+
+    def adopt(self, e, k):
+        """(10 e k): an instance of effect template k is created under the owner of effect e; a child owner
+        inherits the paused flag of its parent"""
+        ev = self.take(12)
+        i = len(self.prog)
+        if ev[1] != i or ev[2] != k:
+            raise Malformed("creation event %r does not fit instance %d of template %d" % (ev, i, k))
+        self.prog.append(self.prog[k][1])
+        self.tpl_of[i] = k
+        self.cap[i] = {}
+        self.okids.setdefault(e, []).append(i)
+        self.alive[i] = True
+        self.paused[i] = bool(self.paused.get(e))
+        if self.paused[i]:
+            self.born_paused.add(i)
+        self.hooks.created(self, i, k)
 
     def resolve(self, j):
         """a template named by the running body: its instance in the body's environment"""
@@ -1053,7 +1264,7 @@ class Walker:
         out = []
         def down(c):
             out.append(c)
-            for d in self.kids.get(c, []):
+            for d in self.kids.get(c, []) + self.okids.get(c, []):
                 if self.prog[d][0] == EFF:
                     down(d)
         for d in subtree(self.prog[:self.nstatic], o):
@@ -1183,6 +1394,7 @@ class Walker:
             elif k == 6:
                 for d in self.descendants(o[1]):
                     self.paused[d] = False
+                    self.born_paused.discard(d)
             elif k == 7:
                 for d in subtree(self.prog[:self.nstatic], o[1]):
                     self.kill(d)
@@ -1190,6 +1402,10 @@ class Walker:
             elif k == 8:
                 self.gone.add(o[1])
                 self.epoch += 1
+            elif k == 9:
+                pass                      # not a write: nothing happens
+            elif k == 10:
+                self.adopt(o[1], o[2])
             self.hooks.after_op(self, o)
         if self.pos != len(self.tr):
             raise Malformed("trailing events from %d: %r" % (self.pos, self.tr[self.pos:self.pos + 3]))
@@ -1519,6 +1735,7 @@ class C02Hooks(Hooks):
         self.polled = []
         self.idles = 0
         self.stale_exempt = 0
+        self.known = None        # id of the known finding the failure belongs to
 
     def logged_cone(self, w, i, seen=None):
         if seen is None:
@@ -1530,6 +1747,11 @@ class C02Hooks(Hooks):
                     self.logged_cone(w, j, seen)
         return seen
 
+    def created(self, w, i, k):
+        if w.prog[i][0] == EFF and w.paused.get(i):
+            # created under a paused owner: its first notification may be consumed during the pause
+            self.paused_since_run[i] = True
+
     def start(self, w, i, handler):
         self.c01.start(w, i, handler)
         if w.prog[i][0] != EFF or self.fail:
@@ -1538,6 +1760,11 @@ class C02Hooks(Hooks):
             self.fail = "effect %d ran after it was disposed" % i
         elif w.paused[i]:
             self.fail = "effect %d ran while its owner was paused" % i
+            if i in w.born_paused:
+                # F-C02-g: Owner::new() (the owner every effect makes for itself) starts out unpaused even when it is
+                # created under a paused owner (Owner::child() copies the flag)
+                self.fail += " (it was created under the paused owner and has not been resumed since)"
+                self.known = "F-C02-g"
         if not handler:
             self.paused_since_run[i] = False
             for key in [k for k in self.sub_time if k[0] == i]:
@@ -1676,7 +1903,7 @@ def run_oracle(item, impl, hooks):
 
 
 def _run_oracle(item, impl, hooks):
-    prog, ops = item["case"]
+    prog, ops = item["case"][0], item["case"][1]
     w = Walker(prog, ops, impl, hooks)
     try:
         w.run()
@@ -1715,9 +1942,34 @@ def show_expr(e):
     return "?"
 
 
+RV_NAMES = ["get", "with", "read", "track+get_untracked", "try_get"]
+WV_NAMES = ["set", "update", "maybe_update(true)", "write() guard", "try_set", "try_update", "SignalSetter", "update_untracked+notify",
+            "mapped view", "write_untracked+notify"]
+
+
+def show_var(nd):
+    v = var_of(nd)
+    if not v:
+        return ""
+    if nd[0] == EFF:
+        return " [constructor variant %d]" % v
+    rv, cv = v % 8, v // 8
+    bits = []
+    if rv:
+        bits.append("read by " + RV_NAMES[rv % 5])
+    if cv and nd[0] == SIG:
+        bits.append("written by " + WV_NAMES[cv % 10])
+    elif cv and nd[0] == MEMO:
+        bits.append(["", "new_owning", "converted handle"][cv % 3])
+    elif cv:
+        bits.append("constructor variant %d" % cv)
+    return " [" + ", ".join(bits) + "]"
+
+
 def describe(item):
     try:
-        prog, ops = item["case"]
+        prog, ops = item["case"][0], item["case"][1]
+        flags = item["case"][2] if len(item["case"]) > 2 else 0
         out = []
         sf = ["ArcRwSignal", "signal()", "RwSignal", "ArcTrigger cell", "arc_signal()"]
         ek = ["Effect::new", "RenderEffect", "watch", "watch(immediate)", "Effect::new_isomorphic", "ImmediateEffect"]
@@ -1739,21 +1991,23 @@ def describe(item):
                       "Selector::new_with_fn[value >= key]"]
                 out.append("n%d = %s(%s) keys %s" % (i, cn[nd[1] % 4], show_expr(nd[2]), [prog[t][2] for t in nd[5]]))
             elif nd[0] == SIG:
-                out.append("n%d = %s(%d)" % (i, sf[nd[1] % 5], nd[2]))
+                out.append("n%d = %s(%d)%s" % (i, sf[nd[1] % 5], nd[2], show_var(nd)))
             elif nd[0] == MEMO:
-                out.append("n%d = %s%s(%s)" % (i, ["ArcMemo", "Memo"][nd[2] % 2],
-                                               ["", "[always changed]", "[changed iff parity differs]"][nd[1] % 3], show_expr(nd[3])))
+                out.append("n%d = %s%s(%s)%s" % (i, ["ArcMemo", "Memo"][nd[2] % 2],
+                                                 ["", "[always changed]", "[changed iff parity differs]"][nd[1] % 3], show_expr(nd[3]), show_var(nd)))
             elif nd[0] == DER:
-                wn = ["closure", "Signal::derive", "ArcSignal::derive", "Signal::from", "ArcSignal::from", "MappedSignal", "MaybeSignal::from"]
-                out.append("n%d = %s(%s)" % (i, wn[nd[1]] if 0 <= nd[1] < len(wn) else "derived", show_expr(nd[2])))
+                wn = ["closure", "Signal::derive", "ArcSignal::derive", "Signal::from", "ArcSignal::from", "MappedSignal", "MaybeSignal::from",
+                      "MaybeProp::from", "Signal<Option>::from", "Signal::from(MaybeSignal)"]
+                out.append("n%d = %s(%s)%s" % (i, wn[nd[1]] if 0 <= nd[1] < len(wn) else "derived", show_expr(nd[2]), show_var(nd)))
             else:
                 h = "" if nd[1] not in (2, 3) else " handler %s" % show_expr(nd[3])
                 own = "" if parent_of(nd) is None else " [owner under n%d's]" % nd[4]
-                out.append("n%d = %s(%s)%s%s" % (i, ek[nd[1] % 6], show_expr(nd[2]), h, own))
-        on = ["set", "notify", "read", "poll#", "run-to-idle", "pause", "resume", "dispose", "dispose-source"]
+                out.append("n%d = %s(%s)%s%s%s" % (i, ek[nd[1] % 6], show_expr(nd[2]), h, own, show_var(nd)))
+        on = ["set", "notify", "read", "poll#", "run-to-idle", "pause", "resume", "dispose", "dispose-source", "not-a-write", "create-under-owner-of"]
         os_ = []
         for o in ops:
             os_.append(on[o[0]] + ("(" + ",".join(str(x) for x in o[1:]) + ")" if len(o) > 1 else ""))
-        return "; ".join(out) + "  ||  " + " ".join(os_)
+        fl = "" if not flags else "  ||  flags: " + ", ".join(x for b, x in ((1, "new waker on every poll"), (2, "untrack_with_diagnostics")) if flags & b)
+        return "; ".join(out) + "  ||  " + " ".join(os_) + fl
     except Exception:
         return None
